@@ -21,7 +21,7 @@ CFG = dict(
                "is called without deadline - the harness avoids that window with a barrier request), sort.Slice as a stable sort on the node's "
                "already ordered answer, goroutines/channels of the fetch pipeline sequentialised as the code's range-then-error order dictates, uint64 as Nat.",
     technique="Lean 4 proof (induction over fault scripts with an explicit cursor invariant; refutation of the pre-fix cursor handling) + regenerated "
-              "facts + differential run of the real client against a fault-injecting fake node",
+              "facts + differential run of the real client against a fault-injecting fake node + probe nodewire: 6 quick / 30 thorough restarts through the REAL cli/operator setupEventHandling with a wire-level oracle on the fake node's request log (oracle only)",
     lean=["Ssv.Props.C13"],
     engines=[dict(harness="logstream", driver="m_logstream", case_delim="reset", n_quick=400, n_thorough=15000, thorough_seeds=4,
                   n_search=1500, search_seeds=3)],
@@ -32,7 +32,7 @@ CFG = dict(
          "failure), usually closed by an undisturbed head; every event line is executed on the real client and on the model and the FilterLogs "
          "call list / re-subscribe count / give-up flag per event and the full delivered sequence (block, log ids) per case are compared; a case "
          "class is distinct per (event kind, outcome, #batches, armed/after-fault flags, re-subscribe count, markers/removed/aborted/historical flags)",
-    trusted_base=["the hand-over between historical and ongoing sync is executed by the harness' own transcription of cli/operator setupEventHandling (SyncHistory, ErrNothingToSync case, SyncOngoing from last+1), not by that function: a change inside setupEventHandling is not seen (campaign V, V-m10: missed)",
+    trusted_base=["the model-diffed cases execute the hand-over between historical and ongoing sync through the harness' own transcription of cli/operator setupEventHandling; the REAL setupEventHandling (real event handler, event syncer, node storage) is covered by the oracle-only probe `nodewire` with a wire-level oracle (the block after the last processed one is requested, no processed block is requested again) on a chain without registry logs (campaign V, V-m10)",
                   "go-ethereum ethclient/rpc client and server (real code, exercised over a real websocket; not modelled)",
                   "fake execution node: scripted immutable chain below head - followDistance, eth_getLogs answers in block order",
                   "harness mirrors cli/operator/node.go's hand-over `SyncOngoing(lastProcessedBlock + 1)` (pinned by a statement-occurrence fact on setupEventHandling) "
